@@ -114,6 +114,9 @@ func (r *renderer) val(v ssa.Value) string {
 		st := deref(v.X.Type()).Underlying().(*types.Struct)
 		return "&" + trimAmp(r.val(v.X)) + "." + st.Field(v.Field).Name()
 	case *ssa.Field:
+		if src := loadSource(v); src != nil && r.depth < 10 {
+			return r.val(src)
+		}
 		st := v.X.Type().Underlying().(*types.Struct)
 		return r.val(v.X) + "." + st.Field(v.Field).Name()
 	case *ssa.IndexAddr:
@@ -134,6 +137,9 @@ func (r *renderer) val(v ssa.Value) string {
 	case *ssa.UnOp:
 		switch v.Op {
 		case token.MUL:
+			if src := loadSource(v); src != nil && r.depth < 10 {
+				return r.val(src) // field of a local struct: the value stored there
+			}
 			x := r.val(v.X)
 			if strings.HasPrefix(x, "&") {
 				return x[1:]
